@@ -182,7 +182,7 @@ def c09(tier):
                                             features="AllWalkFeatures"), R)
     need(rep, ["round-through-simulated-node", "stale-cache-entry-dropped", "round-via-frontier-cache",
                "mutation-during-walk", "walk-completed-within-behaviour", "committed-batch-during-walk",
-               "aborted-batch-during-walk"])
+               "aborted-batch-during-walk", "calls:sweeping-walker"])
     return rep.finish()
 
 
